@@ -300,9 +300,9 @@ theorem decodeFrom_progress (r : Rd) (maxArraySize : Int) (budget : Option Nat) 
 
 /-- **Termination of `ggufLayers`' loop**: whenever the fuel covers the bytes still ahead, the
     loop ends by itself (each iteration moves the offset forward by at least 4 bytes). -/
-theorem ggufLayersLoop_terminates (bs : Bytes) (budget : Option Nat) (g : Guards) (hg : g.negSeek = true) :
+theorem ggufLayersLoop_terminates (bs : Bytes) (budget : Option Nat) (g : Guards) (hg : g.negSeek = true) (maxSeek : Nat) :
     ∀ (fuel offset : Nat) (acc : List GLayer), bs.length ≤ fuel + offset →
-      (ggufLayersLoop bs budget g fuel offset acc).isSome = true := by
+      (ggufLayersLoop bs budget g maxSeek fuel offset acc).isSome = true := by
   intro fuel
   induction fuel with
   | zero =>
@@ -321,18 +321,20 @@ theorem ggufLayersLoop_terminates (bs : Bytes) (budget : Option Nat) (g : Guards
         simp only []
         have hp := decodeFrom_progress ⟨bs.drop offset, offset⟩ 0 budget g hg d hd
         simp only [] at hp
-        exact ih _ _ (by omega)
+        split
+        · rfl
+        · exact ih _ _ (by omega)
     · rfl
 
 /-- **`ggufLayers` terminates on every byte string** (for the working tree's decoder and every
     variant that rejects backward seeks). -/
-theorem ggufLayers_terminates (bs : Bytes) (budget : Option Nat) (g : Guards) (hg : g.negSeek = true) :
-    (ggufLayers bs budget g).isSome = true := by
+theorem ggufLayers_terminates (bs : Bytes) (budget : Option Nat) (g : Guards) (hg : g.negSeek = true) (maxSeek : Nat) :
+    (ggufLayers bs budget g maxSeek).isSome = true := by
   unfold ggufLayers
   simp only []
   split
   · rfl
-  · exact ggufLayersLoop_terminates bs budget g hg bs.length 0 [] (by omega)
+  · exact ggufLayersLoop_terminates bs budget g hg maxSeek bs.length 0 [] (by omega)
 
 /-- outcome of the loop is not a panic / over-budget allocation -/
 def SafeL (x : Option (Except Err (List GLayer))) : Prop :=
@@ -340,8 +342,8 @@ def SafeL (x : Option (Except Err (List GLayer))) : Prop :=
   | some y => Safe y
   | none => True
 
-theorem ggufLayersLoop_safe (bs : Bytes) (B : Nat) (hB : 16 * bs.length ≤ B) :
-    ∀ (fuel offset : Nat) (acc : List GLayer), SafeL (ggufLayersLoop bs (some B) Guards.all fuel offset acc) := by
+theorem ggufLayersLoop_safe (bs : Bytes) (B : Nat) (hB : 16 * bs.length ≤ B) (maxSeek : Nat) :
+    ∀ (fuel offset : Nat) (acc : List GLayer), SafeL (ggufLayersLoop bs (some B) Guards.all maxSeek fuel offset acc) := by
   intro fuel
   induction fuel with
   | zero => intro offset acc; unfold ggufLayersLoop; split <;> simp [SafeL, Safe]
@@ -359,26 +361,30 @@ theorem ggufLayersLoop_safe (bs : Bytes) (B : Nat) (hB : 16 * bs.length ≤ B) :
         | invalid w => simp [SafeL, Safe, isBad]
         | panic w => simp [Safe, isBad] at hs
         | alloc w n => simp [Safe, isBad] at hs
-      | ok d => exact ih _ _
+      | ok d =>
+        simp only []
+        split
+        · simp [SafeL, Safe, isBad]
+        · exact ih _ _
     · simp [SafeL, Safe]
 
 /-- **`ggufLayers` is safe on every byte string**: no panic, no allocation above 16 bytes per input
     byte (+ the same budget as the decoder), whatever the upload contains and however many models
     it holds. -/
-theorem ggufLayers_safe (bs : Bytes) (B : Nat) (hB : 16 * bs.length ≤ B) :
-    SafeL (ggufLayers bs (some B) Guards.all) := by
+theorem ggufLayers_safe (bs : Bytes) (B : Nat) (hB : 16 * bs.length ≤ B) (maxSeek : Nat) :
+    SafeL (ggufLayers bs (some B) Guards.all maxSeek) := by
   unfold ggufLayers
   simp only []
   split
   · simp [SafeL, Safe, isBad]
-  · exact ggufLayersLoop_safe bs B hB _ _ _
+  · exact ggufLayersLoop_safe bs B hB maxSeek _ _ _
 
 /-- every layer lies inside the uploaded file -/
 def Within (n : Nat) (ls : List GLayer) : Prop := ∀ l ∈ ls, l.start + l.size ≤ n
 
-theorem ggufLayersLoop_within (bs : Bytes) (budget : Option Nat) (g : Guards) :
+theorem ggufLayersLoop_within (bs : Bytes) (budget : Option Nat) (g : Guards) (maxSeek : Nat) :
     ∀ (fuel offset : Nat) (acc out : List GLayer), Within bs.length acc →
-      ggufLayersLoop bs budget g fuel offset acc = some (.ok out) → Within bs.length out := by
+      ggufLayersLoop bs budget g maxSeek fuel offset acc = some (.ok out) → Within bs.length out := by
   intro fuel
   induction fuel with
   | zero =>
@@ -408,6 +414,8 @@ theorem ggufLayersLoop_within (bs : Bytes) (budget : Option Nat) (g : Guards) :
       | ok d =>
         rw [hd] at h
         simp only [] at h
+        split at h
+        · cases h
         refine ih _ _ _ ?_ h
         intro l hl
         rcases List.mem_append.mp hl with hl | hl
@@ -422,16 +430,16 @@ theorem ggufLayersLoop_within (bs : Bytes) (budget : Option Nat) (g : Guards) :
           · omega
     · cases h; exact hacc
 
-theorem ggufLayers_within (bs : Bytes) (budget : Option Nat) (g : Guards) (out : List GLayer)
-    (h : ggufLayers bs budget g = some (.ok out)) : Within bs.length out := by
+theorem ggufLayers_within (bs : Bytes) (budget : Option Nat) (g : Guards) (maxSeek : Nat) (out : List GLayer)
+    (h : ggufLayers bs budget g maxSeek = some (.ok out)) : Within bs.length out := by
   unfold ggufLayers at h
   simp only [] at h
   split at h
   · cases h
-  · exact ggufLayersLoop_within bs budget g _ _ _ _ (by intro l hl; cases hl) h
+  · exact ggufLayersLoop_within bs budget g maxSeek _ _ _ _ (by intro l hl; cases hl) h
 
-theorem ggufLayersLoop_done (bs : Bytes) (budget : Option Nat) (g : Guards) (fuel offset : Nat) (acc : List GLayer)
-    (h : bs.length ≤ offset) : ggufLayersLoop bs budget g fuel offset acc = some (.ok acc) := by
+theorem ggufLayersLoop_done (bs : Bytes) (budget : Option Nat) (g : Guards) (maxSeek fuel offset : Nat) (acc : List GLayer)
+    (h : bs.length ≤ offset) : ggufLayersLoop bs budget g maxSeek fuel offset acc = some (.ok acc) := by
   cases fuel with
   | zero => unfold ggufLayersLoop; rw [if_neg (by omega)]
   | succ f => unfold ggufLayersLoop; rw [if_neg (by omega)]
@@ -466,9 +474,9 @@ theorem magic_of_decode (bs : Bytes) (m : Int) (budget : Option Nat) (g : Guards
 /-- **A file that decodes as exactly one model is taken as it is**: when the decode of the whole
     upload ends at the file length, create produces one layer that reuses the uploaded blob
     (C05: this is what the end offset is used for). -/
-theorem ggufLayers_single (bs : Bytes) (budget : Option Nat) (g : Guards) (d : Decoded)
-    (hd : decode bs 0 budget g = .ok d) (hend : d.endOffset = bs.length) :
-    ggufLayers bs budget g = some (.ok [⟨0, bs.length, true, d⟩]) := by
+theorem ggufLayers_single (bs : Bytes) (budget : Option Nat) (g : Guards) (maxSeek : Nat) (d : Decoded)
+    (hd : decode bs 0 budget g = .ok d) (hend : d.endOffset = bs.length) (hfs : bs.length ≤ maxSeek) :
+    ggufLayers bs budget g maxSeek = some (.ok [⟨0, bs.length, true, d⟩]) := by
   unfold decode at hd
   obtain ⟨h4, hm⟩ := magic_of_decode bs 0 budget g d hd
   unfold ggufLayers
@@ -482,7 +490,8 @@ theorem ggufLayers_single (bs : Bytes) (budget : Option Nat) (g : Guards) (d : D
   unfold ggufLayersLoop
   rw [if_pos (by omega), List.drop_zero, hd]
   simp only [hend, List.nil_append]
-  rw [ggufLayersLoop_done _ _ _ _ _ _ (by omega)]
+  rw [if_neg (by omega)]
+  rw [ggufLayersLoop_done _ _ _ _ _ _ _ (by omega)]
   simp [hf]
 
 end OllamaVerif.Gguf
